@@ -35,15 +35,17 @@ func main() {
 		drv:   drv,
 		tieC:  res.Tie("coll-seq", "K1", "random call sequences on a Collection (ids from {'',a,b,c,A,B}+generated, every subset of the write/read options, id interceptors, fixed/ticking clock, scripted rng incl. forced collisions/exhaustion); compared per call: result, code, bus events, callbacks, contents with stored times, clock. distinct = distinct (config, call, contents-before)"),
 		tieV:  res.Tie("value-seq", "K1", "random call sequences on a Value (with/without initial value, writable fields, all write options); compared per call as above"),
-		tieS:  res.Tie("small-scope", "K2", "ALL call sequences up to the stated length over ids {a,b}, values {1//-,2/x/-}, ops add/upd/upd+create/del/del+allow-missing/get/list; and (length <=3) ALL sequences under the lower-casing id interceptor over ids {a,A,''} with id generation from a colliding rng, and ALL sequences of writes on one Value / one item with restricted writable fields, each write widening them its own way (none, all-writable, more-writable, update mask, reset mask); distinct = distinct sequences"),
-		tieO: res.Tie("shared-options", "K2", "ALL call sequences up to the stated length over add/upd/del/get/list on one id where every call takes a view opts[:k] (every k) of ONE option slice with spare capacity (a caller re-using its option list): compared per call as above; distinct = distinct sequences"),
-		tieM: res.Tie("mask-shapes", "K2", "ALL combinations of writable fields x update mask x reset mask x stored message x written message over masks naming the nested message field, its sub-fields, both, and other fields (parents/children), one Update (create-if-absent) followed by Gets under nested read masks; compared per call as above; distinct = distinct combinations"),
+		tieS:  res.Tie("small-scope", "K2", "ALL call sequences up to the stated length over ids {a,b}, values {1//-,2/x/-}, ops add/upd/upd+create/del/del+allow-missing/get/list; and (length <=3) ALL sequences under the lower-casing id interceptor over ids {a,A,''} with id generation from a colliding rng, and ALL sequences of writes on one Value / one item with restricted writable fields, each write widening them its own way (none, all-writable, more-writable, update mask, reset mask), also on OpenClosePosition with only open_percent writable next to open_percent_tween; distinct = distinct sequences"),
+		tieO:  res.Tie("shared-options", "K2", "ALL call sequences up to the stated length over add/upd/del/get/list on one id where every call takes a view opts[:k] (every k; for two of the lists also opts[1:k]) of ONE option slice with spare capacity (a caller re-using its option list): compared per call as above; distinct = distinct sequences"),
+		tieM:  res.Tie("mask-shapes", "K2", "ALL combinations of writable fields x update mask x reset mask x stored message x written message over masks naming the nested message field, its sub-fields, both, and other fields (parents/children), one Update (create-if-absent) followed by Gets under nested read masks; compared per call as above; distinct = distinct combinations"),
+		tieP:  res.Tie("mask-paths", "K2", "ALL lists of path strings up to the stated length over an alphabet of real paths of OpenClosePosition (incl. the siblings open_percent / open_percent_tween, whose names are related by textual prefix, and paths one and two levels inside the latter) and of TestAllTypes (three levels), handed to a Value as read mask, update mask, reset mask and writable fields: the leaf fields acted on, code vs the string-level model of withoutNestedPaths/nestedMask; and every path of the alphabet as update path against every writable list up to length 2 (Validate), code vs isWritablePath of the model; distinct = distinct (type, site, list)"),
 		mon:   res.Monitor("reference-map", "every call of every tie run is checked against a plain Go register/map oracle (fieldwise merge) and the property's clauses: failed call => contents and clock-free state unchanged and no bus event; List = sorted filtered contents; generated id non-empty, unused, reported once, usable"),
 	}
 	r := lib.NewRand(f.Seed)
 	h.smallScope(f.N(3, 4))
 	h.sharedScope(f.N(2, 3))
 	h.maskScope(f.Tier == "thorough")
+	h.pathScope(f.N(3, 4))
 	// the defect witnesses first (small, fixed), then random
 	for _, s := range fixedScripts() {
 		h.runScript(s, h.tieFor(s))
@@ -60,6 +62,7 @@ func main() {
 	h.tieS.Exhaustive = true
 	h.tieO.Exhaustive = true
 	h.tieM.Exhaustive = true
+	h.tieP.Exhaustive = true
 	res.Extra["ops_total"] = h.ops
 	pw := h.cover.report([]string{"upd", "add", "del", "vset", "get", "list", "vget"}, []string{"rm", "inc"})
 	res.Extra["pairwise_option_coverage"] = pw
@@ -73,7 +76,7 @@ type harness struct {
 	cover            *pairCover
 	drv              *lib.Driver
 	tieC, tieV, tieS *lib.Tie
-	tieO, tieM       *lib.Tie
+	tieO, tieM, tieP *lib.Tie
 	mon              *lib.Monitor
 	ops              int
 }
@@ -179,6 +182,9 @@ func scriptKey(s Script) string {
 	var b strings.Builder
 	for _, op := range s.Ops {
 		b.WriteString(op.line() + ";")
+		if op.Off > 0 {
+			fmt.Fprintf(&b, "@%d;", op.Off)
+		}
 	}
 	return b.String()
 }
@@ -302,7 +308,7 @@ func monitorGenID(m *lib.Monitor, s Script, i int, got, pre string) {
 	if strings.Contains(stOf(pre), "["+id+"~") || strings.Contains(stOf(pre), ";"+id+"~") {
 		m.Violate("C01/genid/id-in-use", "generated id was already a key", in, "unused id", id)
 	}
-	if s.Ops[i].has("icb") && part(got, "ids") != "["+id+"]" {
+	if resolve(s.Ops[i]).has("icb") && part(got, "ids") != "["+id+"]" {
 		m.Violate("C01/genid/callback", "generated id not reported exactly once through the id callback", in, "["+id+"]", part(got, "ids"))
 	}
 	// usable: Get(id) on the real code returns the value just written. Every entry point applies the id
@@ -353,8 +359,18 @@ func fixedScripts() []Script {
 			{Op: "upd", ID: "a", Msg: "2//-/7:0/-", Opts: []string{"um=f,fx"}},
 			{Op: "upd", ID: "a", Msg: "2//-/7:0/-", Opts: []string{"mum=fx", "um=f", "mum=fc"}}, {Op: "get", ID: "a", Opts: []string{"rm=fx"}}}},
 		{Cfg: Cfg{Kind: "val", Tick: 1}, Ops: []Op{{Op: "vget"}, {Op: "vset", Msg: "1/x/-"}, {Op: "vset", Msg: "2//-", Opts: []string{"ev=1/x/-", "um=a"}}, {Op: "vget", Opts: []string{"rm=s"}}}},
+		// masks naming two fields of one level of which one name is a textual prefix of the other
+		// (open_percent, open_percent_tween): both are named, in either order, in every kind of mask
+		{Cfg: Cfg{Kind: "val", Tick: 1, Init: []string{"0//-/-/-/10/-"}}, Ops: []Op{
+			{Op: "vset", Msg: "0//-/-/-/50/25", Opts: []string{"um=p,t"}}, {Op: "vget", Opts: []string{"rm=t,p"}},
+			{Op: "vset", Msg: "0//-/-/-/7/-", Opts: []string{"um=p", "rs=tp,p,t"}}, {Op: "vget"}}},
+		{Cfg: Cfg{Kind: "coll", Tick: 1, W: strPtr("p")}, Ops: []Op{
+			{Op: "upd", ID: "a", Msg: "0//-/-/-/50/25", Opts: []string{"cia", "um=t"}},
+			{Op: "upd", ID: "a", Msg: "0//-/-/-/50/25", Opts: []string{"cia", "mw=t", "um=t,p"}}, {Op: "list", Opts: []string{"rm=p,tp"}}}},
 	}
 }
+
+func strPtr(s string) *string { return &s }
 
 func repeatOp(o Op, n int) []Op {
 	out := make([]Op, n)
@@ -367,6 +383,8 @@ func repeatOp(o Op, n int) []Op {
 // genScript generates a call sequence while stepping the oracle, so that ids and preconditions can
 // be chosen relative to the current contents.
 func genScript(r *rand.Rand, n int) Script {
+	genPos = r.Intn(5) == 0 // one script in five works on OpenClosePosition messages
+	defer func() { genPos = false }()
 	s := Script{Cfg: genCfg(r), Share: r.Intn(3) == 0}
 	o := newOracle(s.Cfg)
 	genHeavy := r.Intn(6) == 0
@@ -422,11 +440,18 @@ func genScript(r *rand.Rand, n int) Script {
 		if s.Share && r.Intn(5) < 3 {
 			if op.isWrite() {
 				k := r.Intn(len(master) + 1)
-				op.Opts = master[:k:k]
+				j := 0
+				if r.Intn(3) == 0 {
+					j = r.Intn(k + 1) // a view that does not start at the beginning of the caller's list
+				}
+				op.Opts, op.Off = master[j:k:k], j
 			} else if len(masterR) > 0 {
 				k := r.Intn(len(masterR) + 1)
 				op.Opts = nil
-				for _, t := range masterR[:k] {
+				if r.Intn(3) == 0 {
+					op.Off = r.Intn(k + 1)
+				}
+				for _, t := range masterR[op.Off:k] {
 					if op.Op == "list" || !strings.HasPrefix(t, "inc=") {
 						op.Opts = append(op.Opts, t)
 					}
@@ -504,6 +529,19 @@ func (h *harness) smallScope(maxLen int) {
 		rec(nil)
 		h.tieS.Count(fmt.Sprintf("writable-fields %s: alphabet=%d maxLen=%d", kind, len(alpha), maxLen))
 	}
+	// the same on the second message type: only open_percent is writable; its sibling open_percent_tween
+	// (whose name starts with open_percent) becomes writable / written / reset only by the options of the
+	// write at hand
+	alpha = nil
+	for _, m := range []string{"0//-/-/-/50/25", "0//-/-/-/7/-"} {
+		for _, o := range [][]string{nil, {"nw"}, {"mw=t"}, {"um=p"}, {"mw=t", "um=t,p"}, {"rs=t", "nw", "um=p"}} {
+			alpha = append(alpha, Op{Op: "vset", Msg: m, Opts: o})
+		}
+	}
+	alpha = append(alpha, Op{Op: "vget", Opts: []string{"rm=p,t"}})
+	cfg = Cfg{Kind: "val", Tick: 1, W: strPtr("p"), Init: []string{"0//-/-/-/3/9"}}
+	rec(nil)
+	h.tieS.Count(fmt.Sprintf("writable-fields, prefix-related names: alphabet=%d maxLen=%d", len(alpha), maxLen))
 }
 
 // maskScope: the full product of mask shapes around the nested message field (parent, children, both).
@@ -550,6 +588,49 @@ func (h *harness) maskScope(thorough bool) {
 		}
 	}
 	h.tieM.Count(fmt.Sprintf("combinations=%d", n))
+	// the same product on the second message type: a scalar field and a nested message field of one level
+	// whose names are related by textual prefix (open_percent / open_percent_tween), and a path inside the latter
+	ws = []string{"", "p", "t", "p,t", "tp,p", "0"}
+	ums = []string{"", "0", "p", "t", "p,t", "t,p", "tp", "tp,p", "p,t,tp"}
+	rss = []string{"", "t", "t,p", "p,tp"}
+	stored = []string{"", "0//-/-/-/10/-", "0//-/-/-/10/30"}
+	written = []string{"0//-/-/-/50/25", "0//-/-/-/50/-", "0//-/-/-/0/25", "0//-/-/-/0/0"}
+	if thorough {
+		ws = append(ws, "t,p", "tp")
+		ums = append(ums, "tp,t", "p,p", "t,x")
+		rss = append(rss, "p", "tp", "p,t,tp")
+		stored = append(stored, "0//-/-/-/0/0")
+	}
+	n = 0
+	for _, w := range ws {
+		for _, um := range ums {
+			for _, rs := range rss {
+				for _, st := range stored {
+					for _, wr := range written {
+						cfg := Cfg{Kind: "coll", Tick: 1}
+						if w != "" {
+							cfg.W = strPtr(w)
+						}
+						if st != "" {
+							cfg.Init = []string{"a~" + st}
+						}
+						opts := []string{"cia"}
+						if um != "" {
+							opts = append(opts, "um="+um)
+						}
+						if rs != "" {
+							opts = append(opts, "rs="+rs)
+						}
+						ops := []Op{{Op: "upd", ID: "a", Msg: wr, Opts: opts}, {Op: "get", ID: "a", Opts: []string{"rm=p,t"}},
+							{Op: "get", ID: "a", Opts: []string{"rm=t,p"}}, {Op: "list", Opts: []string{"rm=tp,p"}}, {Op: "get", ID: "a", Opts: []string{"rm=t"}}}
+						h.runScript(Script{Cfg: cfg, Ops: ops}, h.tieM)
+						n++
+					}
+				}
+			}
+		}
+	}
+	h.tieM.Count(fmt.Sprintf("prefix-related names: combinations=%d", n))
 }
 
 // sharedScope runs ALL sequences of length <= maxLen in which
@@ -562,6 +643,8 @@ func (h *harness) sharedScope(maxLen int) {
 		{[]string{"um=a", "chk=aEq:1", "af=stampC", "cia"}, []string{"rm=a", "inc=aPos", "rm=s"}, maxLen},
 		{[]string{"ev=1//-", "am", "bf=bumpA", "xa", "wt=5"}, []string{"inc=sEmpty", "rm=c"}, maxLen},
 		{[]string{"gid", "icb", "ccb", "rs=s", "nw"}, []string{"rm=0"}, maxLen},
+		// callbacks, a check and an interceptor given and then replaced by nil: each view ends at another point
+		{[]string{"gid", "icb", "ccb", "chk=fail:Aborted", "icb0", "bf=bumpA", "chk=nil", "ccb0", "bf=nil"}, []string{"rm=a"}, 2},
 	}
 	for li, l := range lists {
 		var alpha []Op
@@ -569,15 +652,23 @@ func (h *harness) sharedScope(maxLen int) {
 			v := l.w[:k:k]
 			alpha = append(alpha, Op{Op: "add", ID: "a", Msg: "1/x/-", Opts: v}, Op{Op: "upd", ID: "a", Msg: "2//4", Opts: v},
 				Op{Op: "del", ID: "a", Opts: v})
-			if li == 2 {
+			if li >= 2 {
 				alpha = append(alpha, Op{Op: "add", ID: "", Msg: "3//-", Opts: v})
+			}
+			// the views opts[1:k] as well (the first two lists): a view need not start where the array starts
+			if li < 2 && k >= 2 {
+				v := l.w[1:k:k]
+				alpha = append(alpha, Op{Op: "add", ID: "a", Msg: "1/x/-", Opts: v, Off: 1}, Op{Op: "upd", ID: "a", Msg: "2//4", Opts: v, Off: 1})
 			}
 		}
 		for k := 0; k <= len(l.r); k++ {
 			alpha = append(alpha, Op{Op: "list", Opts: l.r[:k:k]})
+			if k >= 2 {
+				alpha = append(alpha, Op{Op: "list", Opts: l.r[1:k:k], Off: 1})
+			}
 		}
 		cfg := Cfg{Kind: "coll", Tick: 1}
-		if li == 2 {
+		if li >= 2 {
 			w := "a,s"
 			cfg.W = &w
 		}
@@ -606,6 +697,14 @@ func replay(f lib.Flags) int {
 		lib.Fatal(err)
 	}
 	in, ok := rp.Input.(map[string]any)
+	if ok && in["paths"] != nil {
+		b, _ := json.Marshal(in["paths"])
+		var c PathCase
+		if err := json.Unmarshal(b, &c); err != nil {
+			lib.Fatal(err)
+		}
+		return replayPaths(c)
+	}
 	if !ok || in["script"] == nil {
 		fmt.Println("replay: no concrete input in file (", rp.Kind, rp.Broken, ")")
 		return 2
